@@ -215,7 +215,7 @@ func (g *trigGen) stmt(table, timing, event string) TrigStmt {
 			s = TrigStmt{K: "audit"}
 		case k < 52:
 			s = TrigStmt{K: "uvar"}
-		case k < 64:
+		case k < 60:
 			if timing != "before" || event == "delete" {
 				continue
 			}
@@ -234,7 +234,7 @@ func (g *trigGen) stmt(table, timing, event string) TrigStmt {
 				}
 			}
 			s = TrigStmt{K: "set", Col: col, E: e}
-		case k < 70:
+		case k < 72:
 			if g.r.Intn(2) == 0 {
 				s = TrigStmt{K: "signal", E: sqlast.Op("eq", rowRef(event, 1), tlit(g.r.Intn(7)))}
 			} else {
@@ -284,7 +284,7 @@ func (g *trigGen) cascade(parent, child string) {
 	tm := trigTimings[g.r.Intn(2)]
 	kind := []string{"ins", "ins", "upd", "del"}[g.r.Intn(4)]
 	cev := evOf(kind)
-	if cev == "delete" {
+	if cev == "delete" || g.r.Intn(2) == 0 {
 		g.add(child, "before", cev, []TrigStmt{{K: "audit"}}, false)
 	} else {
 		col := 2 + g.r.Intn(2)
